@@ -19,12 +19,56 @@ from pyvc.interp import Config, Ctx, Interp, Opaque, SymRaise, explore
 IO = "mygrad._io"
 
 
+class ArrV(Opaque):
+    """An array value.  `origin` names the array whose value, shape and dtype it carries: np.asarray / np.asanyarray hand back their argument,
+    np.array / np.copy / ndarray.copy a value-equal array (same origin); every other NumPy function is uninterpreted -- its result is an array
+    about which nothing is known (a fresh origin), so a contract clause that needs "the stored array IS the tensor's data" is refuted instead of
+    leaving the path outside the modelled subset."""
+
+    def __init__(self, origin):
+        super().__init__(origin)
+        self.origin = origin
+
+    def __sym_getattr__(self, interp, name):
+        if name == "copy":
+            return lambda *a, **k: ArrV(self.origin)
+        return Opaque(f"{self.origin}.{name}")
+
+
+class NumpyShim:
+    """np.<f> for every f the harness does not define: logged, result unrelated to its arguments"""
+
+    def __init__(self, log):
+        self._log = log
+
+    def asarray(self, x, *a, **k):
+        return x if not a and not k else ArrV(f"np.asarray({getattr(x, 'origin', x)!r}, ...)")
+
+    asanyarray = asarray
+
+    def array(self, x, *a, **k):
+        return ArrV(x.origin) if isinstance(x, ArrV) and not a and set(k) <= {"copy"} else ArrV(f"np.array({getattr(x, 'origin', x)!r}, ...)")
+
+    def copy(self, x, *a, **k):
+        return ArrV(x.origin) if isinstance(x, ArrV) else ArrV("np.copy(?)")
+
+    def __getattr__(self, name):
+        if name.startswith("_"):
+            raise AttributeError(name)
+
+        def unknown(*a, **k):
+            self._log.append(("np-call", name))
+            return ArrV(f"np.{name}({', '.join(str(getattr(x, 'origin', x)) for x in a)})")
+
+        return unknown
+
+
 class FakeTensor:
     def __init__(self, has_grad, log):
         self.has_grad = has_grad
         self.log = log
-        self.data_obj = Opaque("t.data")
-        self.grad_obj = Opaque("t.grad") if has_grad else None
+        self.data_obj = ArrV("t.data")
+        self.grad_obj = ArrV("t.grad") if has_grad else None
 
     def __sym_getattr__(self, interp, name):
         self.log.append(("read", name))
@@ -47,16 +91,15 @@ def save_harness(kind):
         log = []
         calls = []
 
-        class NP:
-            @staticmethod
-            def savez(file, *a, **k):
+        class NP(NumpyShim):
+            def savez(self, file, *a, **k):
                 calls.append((file, a, k))
                 return None
 
         class TB:
             Tensor = TypeToken("Tensor", lambda interp, v: isinstance(v, FakeTensor))
 
-        cfg.module_overrides["numpy"] = NP
+        cfg.module_overrides["numpy"] = NP(log)
         cfg.module_overrides["mygrad.tensor_base"] = TB
         interp = Interp(ctx, cfg)
         f = interp.global_lookup(interp.module(IO), "save")
@@ -79,13 +122,14 @@ def save_harness(kind):
         if len(calls) == 1:
             fobj, a, k = calls[0]
             ctx.oblige(f"{tag}.same_file", fobj is file and not a, **meta)
-            ctx.oblige(f"{tag}.data_key", k.get("data") is t.data_obj, **meta)
+            # the array written under "data" carries the tensor's data: value, shape and dtype (the tensor's own array or a value-equal copy)
+            ctx.oblige(f"{tag}.data_key", getattr(k.get("data"), "origin", None) == "t.data", got=repr(k.get("data")), **meta)
             if kind == "with-grad":
-                ctx.oblige(f"{tag}.grad_key", set(k) == {"data", "grad"} and k.get("grad") is t.grad_obj, **meta)
+                ctx.oblige(f"{tag}.grad_key", set(k) == {"data", "grad"} and getattr(k.get("grad"), "origin", None) == "t.grad", got=repr(k.get("grad")), **meta)
             else:
                 ctx.oblige(f"{tag}.no_grad_key", set(k) == {"data"}, **meta)
         ctx.oblige(f"{tag}.tensor_not_written", not any(op == "write" for op, _ in log), **meta)
-        ctx.oblige(f"{tag}.reads_only_data_and_grad", {n for op, n in log} <= {"data", "grad"}, **meta)
+        ctx.oblige(f"{tag}.reads_only_data_and_grad", all(n in ("data", "grad") or not n.startswith("_") for op, n in log if op != "np-call"), **meta)  # pure public attributes (base, shape, dtype, constant) may be read; private slots (_grad, _view_grad: they bypass the getter) may not
 
     return h
 
@@ -96,7 +140,7 @@ def load_harness(kind):
         cfg.builtins = default_builtins()
         events = []
         file = Opaque("file")
-        data_arr, grad_arr = Opaque("stored data"), Opaque("stored grad")
+        data_arr, grad_arr = ArrV("stored data"), ArrV("stored grad")
 
         class Loaded:
             def __sym_getitem__(self, interp, key):
@@ -118,9 +162,8 @@ def load_harness(kind):
 
         nt = NewTensor()
 
-        class NP:
-            @staticmethod
-            def load(fobj, *a, **k):
+        class NP(NumpyShim):
+            def load(self, fobj, *a, **k):
                 events.append(("np.load", fobj, a, k))
                 return loaded
 
@@ -130,7 +173,7 @@ def load_harness(kind):
                 events.append(("tb.tensor", x, a, k))
                 return nt
 
-        cfg.module_overrides["numpy"] = NP
+        cfg.module_overrides["numpy"] = NP(events)
         cfg.module_overrides["mygrad.tensor_base"] = TB
         interp = Interp(ctx, cfg)
         f = interp.global_lookup(interp.module(IO), "load")
@@ -142,10 +185,10 @@ def load_harness(kind):
         ctx.oblige(f"{tag}.np_load_once_with_file", len(loads) == 1 and loads[0][1] is file and not loads[0][2] and not loads[0][3], **meta)
         tens = [e for e in events if e[0] == "tb.tensor"]
         # default arguments only: tensor(x) copies and infers dtype/constant from the stored array (C17)
-        ctx.oblige(f"{tag}.tensor_built_from_data_entry", len(tens) == 1 and tens[0][1] is data_arr and not tens[0][2] and not tens[0][3], **meta)
+        ctx.oblige(f"{tag}.tensor_built_from_data_entry", len(tens) == 1 and getattr(tens[0][1], "origin", None) == "stored data" and not tens[0][2] and not tens[0][3], got=repr(tens[0][1]) if tens else None, **meta)
         bw = [e for e in events if e[0] == "backward"]
         if kind == "with-grad":
-            ctx.oblige(f"{tag}.gradient_reseeded", len(bw) == 1 and bw[0][1] is grad_arr, **meta)
+            ctx.oblige(f"{tag}.gradient_reseeded", len(bw) == 1 and getattr(bw[0][1], "origin", None) == "stored grad", **meta)
         else:
             ctx.oblige(f"{tag}.no_backward_without_grad", not bw, **meta)
 
